@@ -298,7 +298,7 @@ def rule_poll(ctx):
 
 
 # a wait is released by a callback in the client's registry: a raising callback registered earlier must not keep the event from it
-IMPORTS = [('C16', 'C16.CONTAIN'), ('C16', 'C16.FILTER')]
+IMPORTS = [('C16', 'C16.CONTAIN'), ('C16', 'C16.FILTER'), ('C16', 'C16.RM')]
 
 RULES = [
     ("C17.COND", rule_cond, "release condition table; result stored only while the completion flag is unset (callback)"),
